@@ -83,8 +83,8 @@ ASSUMPTIONS = [
     'matrices; an unknown gate name falls back to the gate\'s own array (counted)',
     'indexed Pauli strings with a repeated index (X0Z0) have no documented meaning and are outside the alphabet',
     'w_z takes dyadic values, so n_x + n_y + w_z n_z < d is decided exactly in floating point by implementation and reference alike',
-    'weight enumerators through numqi are compared for n <= 6 (quick) and n <= 10 (thorough); for (11,2,5) only the reference '
-    'enumerator of the implementation\'s code words is evaluated (the numqi routine would need > 1 h)',
+    'weight enumerators through numqi are compared for n <= 6 (quick) and n <= 8 (thorough); for (10,4,4) and (11,2,5) only the '
+    'reference enumerator of the implementation\'s code words is evaluated (the monolithic numqi routine needs 16 min resp. > 1 h)',
     'error weights above d, non-Pauli error operators, K not a power of two and the variational models (VarQEC*) are outside the space',
 ]
 CHUNK = 1
@@ -430,32 +430,57 @@ def get_code(numqi, tag):
     return getattr(numqi.qec, 'generate_code' + tag)()
 
 
-def circuit_on_basis(circ, n, out):
-    """apply the circuit to every computational basis state; returns (2^n, 2^n) array, row x = circuit |x>"""
+def pauli_on_basis(terms, n):
+    """P |x> = ph[x] |tgt[x]> for P = product of single-qubit Paulis (letter, qubit) on pairwise distinct qubits:
+    X_q|y> = |y^m>,  Z_q|y> = (-1)^{y_q}|y>,  Y_q|y> = i (-1)^{y_q} |y^m>   (distinct qubits: y_q is the original bit x_q)"""
     N = 1 << n
-    rows = np.zeros((N, N), dtype=np.complex128)
+    tgt = np.arange(N)
+    ph = np.ones(N, dtype=np.complex128)
+    assert len({q for _, q in terms}) == len(terms)
+    for c, q in terms:
+        bit = qbit(n, q)
+        if c in 'XY':
+            tgt = tgt ^ (1 << (n - 1 - q))
+        if c == 'Z':
+            ph = ph * (1 - 2 * bit)
+        elif c == 'Y':
+            ph = ph * (1j * (1 - 2 * bit))
+    return tgt, ph
+
+
+def circuit_on_basis(circ, n, out, tgt, ph):
+    """apply the circuit to every computational basis state |x> and compare with ph[x] |tgt[x]>.
+    Returns dict(err[x] = max-norm deviation, obs_tgt, obs_val = position / value of the largest amplitude, identity flag)"""
+    N = 1 << n
+    err = np.zeros(N)
+    obs_tgt = np.zeros(N, dtype=np.int64)
+    obs_val = np.zeros(N, dtype=np.complex128)
+    ident = True
     for x in range(N):
         e = np.zeros(N, dtype=np.complex128)
         e[x] = 1
-        rows[x] = circ.apply_state(e)
+        got = np.asarray(circ.apply_state(e))
         out.state()
         out.trans()
-    return rows
+        if got.shape != (N,) or not np.all(np.isfinite(got)):
+            err[x] = np.inf
+            ident = False
+            continue
+        k = int(np.argmax(np.abs(got)))
+        obs_tgt[x] = k
+        obs_val[x] = got[k]
+        got = got.astype(np.complex128)      # a copy
+        if ident:
+            got[x] -= 1
+            ident = not got.any()
+            got[x] += 1
+        got[tgt[x]] -= ph[x]
+        err[x] = np.abs(got).max()
+    return dict(err=err, obs_tgt=obs_tgt, obs_val=obs_val, identity=bool(ident))
 
 
-def pauli_rows(terms, n):
-    """row x = P |x> for P = product of single-qubit Paulis (letter, qubit) on distinct qubits, via the bit-operation reference.
-    P|x> has one non-zero entry: (P e_x)[y] = e_x applied ... computed by applying P to the identity matrix's rows as column
-    vectors: row x of the result is the vector P e_x."""
-    N = 1 << n
-    pr = pauli_ref(n)
-    # P acts on a state vector psi as psi -> apply(psi); take psi = e_x for all x at once (rows of the identity)
-    eye = np.eye(N, dtype=np.complex128)
-    return pr.apply_terms(eye, terms)
-
-
-def is_identity_rows(rows):
-    return rows.shape[0] == rows.shape[1] and np.array_equal(rows, np.eye(rows.shape[0]))
+def basis_text(tgt, ph, x, n):
+    return '(%s)|%s>' % (np.round(ph[x], 6), format(int(tgt[x]), '0%db' % n))
 
 
 # ------------------------------------------------------------------ alphabets
@@ -486,7 +511,10 @@ def prepare(env):
         for s in all_strings(n):
             dense = ref.kron(*[ref.PAULI[c] for c in s])
             assert np.abs(pr.apply_string(psi, s) - psi @ dense.T).max() < 1e-12, s
-            assert np.abs(pauli_rows(list(zip(s, range(n))), n) - dense.T).max() == 0, s
+            tgt, ph = pauli_on_basis([(c, q) for q, c in enumerate(s) if c != 'I'], n)
+            col = np.zeros((1 << n, 1 << n), dtype=np.complex128)      # col[:, x] = P e_x
+            col[tgt, np.arange(1 << n)] = ph
+            assert np.abs(col - dense).max() == 0, s
     n = 3
     psi = rng.normal(size=(2, 8)) + 1j * rng.normal(size=(2, 8))
     U = ref.haar_unitary(rng, 2)
@@ -520,6 +548,9 @@ def prepare(env):
 
 
 # ------------------------------------------------------------------ cases
+ENUM_IMPL_THOROUGH = ('8_64_2', '883')
+
+
 def codes_of(tier):
     return CODES if tier == 'thorough' else CODES[:-1]
 
@@ -529,9 +560,10 @@ def build_cases(tier, seed):
     cases = []
     info = {}
     if not quick:
-        # the three monolithic quantum_weight_enumerator calls that take minutes are started first so that they do not
-        # form the tail of the run (they cannot yield a "simpler" counterexample than the per-code cases anyway)
-        for tag in ('10_4_4', '8_64_2', '883'):
+        # the two monolithic quantum_weight_enumerator calls that take minutes (112 s and 48 s on an idle core) are started
+        # first so that they do not form the tail of the run (they cannot yield a "simpler" counterexample than the per-code
+        # cases anyway). The same call for (10,4,4) needs about 16 min, for (11,2,5) more than an hour: reference only.
+        for tag in ENUM_IMPL_THOROUGH:
             cases.append({'kind': 'enum', 'code': tag, 'impl': True})
     cases.append({'kind': 'qecc_str'})
     # ---- parser
@@ -574,11 +606,12 @@ def build_cases(tier, seed):
         cases.append({'kind': 'code', 'code': tag})
         for k in range(N_STAB[tag]):
             cases.append({'kind': 'stab', 'code': tag, 'k': k})
-        wdiff = d     # weight d is explored as a differential-only level
+        # weight d is explored as a differential-only level (quick: n <= 8; thorough: every code)
+        wdiff = d if (n <= 8 or not quick) else d - 1
         for q in range(n):
             for c in 'XYZ':
                 cases.append({'kind': 'kl', 'code': tag, 'root': [q, c], 'wmax': wdiff})
-        if quick or tag not in ('10_4_4', '8_64_2', '883'):   # those three were queued first in the thorough tier
+        if quick or tag not in ENUM_IMPL_THOROUGH:   # those were queued first in the thorough tier
             cases.append({'kind': 'enum', 'code': tag, 'impl': bool(n <= 6)})
         info['codes'].append({'code': NAME[tag], 'errors_below_distance': sum(n_errors(n, w) for w in range(1, d)),
                               'errors_differential_level': (n_errors(n, d) if wdiff == d else 0),
@@ -638,27 +671,19 @@ def run_qecc_str(numqi, case, out, env):
 
 
 def check_circuit_is_pauli(out, circ, terms, n, key, text, **detail):
-    """circuit applied to every basis state of n qubits == product of the (letter, qubit) terms. Returns (ok, rows)"""
-    rows = circuit_on_basis(circ, n, out)
-    exp = pauli_rows([t for t in terms if t[0] != 'I'], n)
+    """circuit applied to every basis state of n qubits == product of the (letter, qubit) terms. Returns the observation"""
+    tgt, ph = pauli_on_basis([t for t in terms if t[0] != 'I'], n)
+    obs = circuit_on_basis(circ, n, out, tgt, ph)
     ng = max(1, len(circ.gate_index_list))
     # exact products of 0, +-1, +-i; tolerance 1e3 eps G only so that other exact gate sets are not over-constrained
-    err = float(np.abs(rows - exp).max())
-    ok = err <= C_SAFE * EPS * ng
-    if not ok:
-        x = int(np.argwhere(np.abs(rows - exp).max(axis=1) > C_SAFE * EPS * ng)[0, 0])
-        out.violation(key, '%s: circuit |%s> = %s, Pauli string gives %s (circuit gates: %s)' % (
-            text, format(x, '0%db' % n), _vec_text(rows[x], n), _vec_text(exp[x], n),
-            [(g.name, repr(i)) for g, i in circ.gate_index_list][:12]),
-            basis_state=x, is_identity=bool(is_identity_rows(rows)), **detail)
-    return ok, rows
-
-
-def _vec_text(v, n):
-    nz = np.flatnonzero(np.abs(v) > 1e-12)
-    if len(nz) > 4:
-        return '<%d non-zero amplitudes>' % len(nz)
-    return ' + '.join('(%s)|%s>' % (np.round(v[i], 6), format(int(i), '0%db' % n)) for i in nz) or '0'
+    bad = obs['err'] > C_SAFE * EPS * ng
+    if bad.any():
+        x = int(np.flatnonzero(bad)[0])
+        out.violation(key, '%s: circuit |%s> has its largest amplitude %s, the Pauli string gives %s (circuit gates: %s; circuit is the identity: %s)' % (
+            text, format(x, '0%db' % n), basis_text(obs['obs_tgt'], obs['obs_val'], x, n), basis_text(tgt, ph, x, n),
+            [(g.name, repr(i)) for g, i in circ.gate_index_list][:12], obs['identity']),
+            basis_state=x, n_bad_basis_states=int(bad.sum()), is_identity=obs['identity'], **detail)
+    return obs
 
 
 def run_parse(numqi, case, out, env):
@@ -682,8 +707,8 @@ def run_parse(numqi, case, out, env):
                           'parse_simple_pauli(%r, tag_circuit=True) raised %r' % (s, e), string=s)
             circ = None
         if circ is not None:
-            ok, rows = check_circuit_is_pauli(out, circ, terms, n, K_PARSE_CIRC, 'parse_simple_pauli(%r, tag_circuit=True)' % s, string=s)
-            out.outcome(('circ', n, rows), nontrivial=not is_identity_rows(rows))
+            obs = check_circuit_is_pauli(out, circ, terms, n, K_PARSE_CIRC, 'parse_simple_pauli(%r, tag_circuit=True)' % s, string=s)
+            out.outcome(('circ', n, obs['obs_tgt'], obs['obs_val']), nontrivial=not obs['identity'])
         # ---- list mode
         out.state()
         out.trans()
@@ -926,6 +951,8 @@ def run_code(numqi, case, out, env):
         okc = got.shape == exp_val.shape and float(np.abs(got - exp_val).max()) <= ti
         out.check(okc, SITE_I + ':check_stabilizer/differs_from_listed_pauli_expectation',
                   'check_stabilizer = %s, <c|S|c> of the listed strings = %s' % (np.round(got, 6).tolist(), np.round(exp_val, 6).tolist()), code=NAME[tag])
+    for k in range(N_STAB[tag], len(stab)):      # stabilizers beyond those the case list was built for
+        stab_check(numqi, out, c, tag, strings, k)
     out.trace()
     out.sample = {'kind': 'code', 'code': NAME[tag], 'listed': strings, 'origin': origin}
 
@@ -933,21 +960,26 @@ def run_code(numqi, case, out, env):
 def run_stab(numqi, case, out, env):
     tag, k = case['code'], case['k']
     c = build_code(numqi, tag, out)
+    strings, origin = listed_strings(numqi, tag, c['n'], out)
+    stab_check(numqi, out, c, tag, strings, k)
+
+
+def stab_check(numqi, out, c, tag, strings, k):
+    """stabilizer circuit k of the code on ALL basis states == listed string k; the circuit fixes every code word"""
     n, K, site, cw = c['n'], c['K'], c['site'], c['cw']
-    strings, origin = listed_strings(numqi, tag, n, out)
     stab = c['code']['stabilizer']
-    if k >= len(stab) or k >= len(strings) or len(strings[k]) != n:
+    if k >= len(stab) or k >= len(strings) or len(strings[k]) != n or cw.shape != (K, 1 << n):
         out.state()
         out.trans()
-        out.count('stabilizer_index_absent')   # reported by the `code` case (stabilizer_count / listed_string_wrong_length)
+        out.count('stabilizer_index_absent')   # reported by the `code` case (stabilizer_count / listed_string_wrong_length / wrong_shape)
         return
     s = strings[k]
-    terms = [(ch, q) for q, ch in enumerate(s)]
-    rows = circuit_on_basis(stab[k], n, out)
-    exp = pauli_rows([t for t in terms if t[0] != 'I'], n)
+    terms = [(ch, q) for q, ch in enumerate(s) if ch != 'I']
+    tgt, ph = pauli_on_basis(terms, n)
+    obs = circuit_on_basis(stab[k], n, out, tgt, ph)
     ng = max(1, len(stab[k].gate_index_list))
-    bad = np.abs(rows - exp).max(axis=1) > C_SAFE * EPS * ng
-    out.outcome(('stab', n, rows), nontrivial=not is_identity_rows(rows))
+    bad = obs['err'] > C_SAFE * EPS * ng
+    out.outcome(('stab', n, obs['obs_tgt'], obs['obs_val']), nontrivial=not obs['identity'])
     if bad.any():
         x = int(np.flatnonzero(bad)[0])
         # root cause: does the parser itself turn the listed string into this (wrong) circuit?
@@ -956,14 +988,16 @@ def run_stab(numqi, case, out, env):
             again = numqi.qec.parse_simple_pauli(s, tag_circuit=True)
             e = np.zeros(1 << n, dtype=np.complex128)
             e[x] = 1
-            if np.abs(again.apply_state(e) - exp[x]).max() > C_SAFE * EPS * ng:
+            got = np.asarray(again.apply_state(e)).astype(np.complex128)
+            got[tgt[x]] -= ph[x]
+            if np.abs(got).max() > C_SAFE * EPS * ng:
                 key = K_PARSE_CIRC
         except Exception:
             pass
-        out.violation(key, 'stabilizer circuit %d of %s is not the listed string %s: circuit |%s> = %s, %s gives %s (circuit gates %s; identity: %s)' % (
-            k, NAME[tag], s, format(x, '0%db' % n), _vec_text(rows[x], n), s, _vec_text(exp[x], n),
-            [(g.name, repr(i)) for g, i in stab[k].gate_index_list], is_identity_rows(rows)),
-            code=NAME[tag], string=s, k=k, basis_state=x, n_bad_basis_states=int(bad.sum()), is_identity=bool(is_identity_rows(rows)))
+        out.violation(key, 'stabilizer circuit %d of %s is not the listed string %s: circuit |%s> has its largest amplitude %s, %s gives %s (circuit gates %s; circuit is the identity: %s)' % (
+            k, NAME[tag], s, format(x, '0%db' % n), basis_text(obs['obs_tgt'], obs['obs_val'], x, n), s, basis_text(tgt, ph, x, n),
+            [(g.name, repr(i)) for g, i in stab[k].gate_index_list], obs['identity']),
+            code=NAME[tag], string=s, k=k, basis_state=x, n_bad_basis_states=int(bad.sum()), is_identity=obs['identity'])
     # the circuit fixes every code word
     ta = tol_amp(c['n_gate'] + ng)
     for i in range(K):
